@@ -1,1 +1,44 @@
-From WTP Require Import Model.Expand.
+(** C04 — template expansion agrees with the reference transclusion semantics
+    (model: Model/Expand.v, tied to Wtp.expand by per-run correspondence;
+    proofs: Proofs/ExpandProofs.v).
+    PARTIAL: the theorems below state the clauses of the property that are
+    proved for the model for all inputs; the equality of the whole model with
+    an independent environment-based semantics (c04_refines) is not proved —
+    it is checked per run against the reference semantics in
+    harness/gen_wt.py on generated libraries and pages. *)
+From Coq Require Import List NArith Bool Arith.
+From WTP Require Import Base.Str Model.ArgViews Model.Expand Proofs.ExpandProofs.
+Import ListNotations.
+Open Scope N_scope.
+
+(* later duplicates win, other keys are unaffected (the argument map is a dict) *)
+Theorem c04_later_duplicate_wins :
+  forall m k v, am_get (am_set m k v) k = Some v.
+Proof. exact am_get_set_same. Qed.
+Print Assumptions c04_later_duplicate_wins.
+
+Theorem c04_other_keys_unaffected :
+  forall m k k' v, key_eqb k' k = false -> am_get (am_set m k v) k' = am_get m k'.
+Proof. exact am_get_set_other. Qed.
+Print Assumptions c04_other_keys_unaffected.
+
+(* text without calls, parameters or links is returned unchanged by both passes
+   and by finalisation, whatever the library, options and expansion path *)
+Theorem c04_plain_text_unchanged :
+  forall pfnames lib opts e, forallb is_ch e = true ->
+  forall fuel stk ea am, (length e < fuel)%nat ->
+    expand_recurse pfnames lib opts fuel stk ea e = Some e /\
+    expand_args pfnames lib opts fuel stk am e = Some e.
+Proof. intros. split; [apply expand_recurse_plain | apply expand_args_plain]; assumption. Qed.
+Print Assumptions c04_plain_text_unchanged.
+
+Theorem c04_finalize_plain :
+  forall nwmap s fuel, (0 < fuel)%nat -> finalize fuel nwmap (chars s) = s.
+Proof. exact finalize_plain. Qed.
+Print Assumptions c04_finalize_plain.
+
+(* a result starting with a list/table marker gets exactly one newline prepended, nothing else changes *)
+Theorem c04_newline_before_block_marker :
+  forall e, add_newline e = if starts_block e then Ch 10 :: e else e.
+Proof. exact add_newline_spec. Qed.
+Print Assumptions c04_newline_before_block_marker.
